@@ -36,7 +36,7 @@ def main():
     chunks = [hists[i::nw] for i in range(nw)]
     from concurrent.futures import ThreadPoolExecutor
     with ThreadPoolExecutor(nw) as ex:
-        outs = list(ex.map(lambda ch: vf.impl("impl_hist.py", {"histories": ch}, timeout=3000), chunks))
+        outs = list(ex.map(lambda kc: vf.impl("impl_hist.py", {"histories": kc[1]}, timeout=3000, bg=(kc[0] % 3 == 1)), list(enumerate(chunks))))
     res = [None] * len(hists)
     for w, o in enumerate(outs):
         for j, r in enumerate(o):
